@@ -65,6 +65,34 @@ CHECKS = {
         "DESIGN.md section 8, C17",
         "Production is observed as the producer function returning (or the resume-path step of an answered interrupt); a name supplied by the caller counts as produced by the caller.",
     ),
+    "C05": (
+        "exploration",
+        "runtime monitoring: differential nested-vs-flat execution of generated programs (input contract, values, per-function arguments from the call log) with RefEval as third voice",
+        "A random dependency-closed group of a generated DAG is wrapped into a nested graph node, repeatedly to depth 3, with "
+        "inner bindings, inner select and wrapper renames (the flat side is alpha-renamed identically, so equality is exact); both "
+        "builds run on both runners and are compared with each other and with the reference evaluator.",
+        "DESIGN.md section 8, C05",
+        "Inner-level bindings only on names private to the group; hidden outputs compared on the exposed set.",
+    ),
+    "C06": (
+        "exploration",
+        "runtime monitoring: rename-history generator + bijection reference model checked on node attributes and on the arguments recorded inside the wrapped functions",
+        "Histories of up to 5 rename batches (swaps, cycles, chains, re-used names) on every node kind, fluent or with the node "
+        "used between batches, are checked against a simultaneous-update bijection: static attributes (inputs, outputs, defaults, "
+        "types, name maps) and dynamic behaviour (each underlying parameter receives the value addressed to its current name; "
+        "outputs under current names; map_over/clone follow), plus whole-graph alpha-renaming.",
+        "DESIGN.md section 8, C06",
+        "Each parameter has a distinct annotation/default so confusions are visible.",
+    ),
+    "C07": (
+        "exploration",
+        "runtime monitoring: operation-history generator with twin-replay oracle (each live object's observable snapshot vs the same derivation replayed in isolation)",
+        "Random sequences of all derivation operations over graphs and nodes, interleaved with uses and with mutation of "
+        "caller-owned dicts/copies; every live object must be indistinguishable (public attributes, freshly recomputed input "
+        "spec, structure hash, edges, run results incl. run-time select) from a twin built from scratch by its own recipe.",
+        "DESIGN.md section 8, C07",
+        "The twin never experienced the other operations, which is what 'unchanged' means; internal sharing is not judged.",
+    ),
 }
 
 NOT_YET = {}
